@@ -49,6 +49,8 @@ const (
 	LocSyncWrite
 	LocSyncRead
 	LocExecve
+	LocSetHostName
+	LocSetDomainName
 )
 
 var locToString = []string{
@@ -85,10 +87,12 @@ var locToString = []string{
 	"sync_write",
 	"sync_read",
 	"execve",
+	"sethostname",
+	"setdomainname",
 }
 
 func (e ErrorLocation) String() string {
-	if e >= LocClone && e <= LocExecve {
+	if e >= LocClone && e <= LocSetDomainName {
 		return locToString[e]
 	}
 	return "unknown"
